@@ -116,11 +116,13 @@ int KSI_Signature_verifyWithPolicy(KSI_Signature *sig, const KSI_DataHash *docHs
 		goto cleanup;
 	}
 
-	if (verificationContext == NULL) {
+	if (verificationContext != NULL) {
+		context = *verificationContext;
+	}
+	/* The explicitly given document hash and level must not be dropped when a context is supplied. */
+	if (verificationContext == NULL || docHsh != NULL) {
 		context.documentHash = docHsh;
 		context.docAggrLevel = rootLevel;
-	} else {
-		context = *verificationContext;
 	}
 	context.signature = sig;
 
